@@ -401,3 +401,233 @@ theorem fields_sh (abort : Bool) : (fs : Fields) → ∀ (path : Path) (vals : L
       (fun v t' _ h2 => fields_sh abort rest path _ t' h2)
 end
 end
+
+
+/-! ## messages -/
+section
+variable {d : Nat} {y : List Byte} {pre : List (Nat × Event)}
+
+theorem sh_bind' {α β : Type} {r r' : R α} {k k' : α → St → R β} (hr : ND r → r' = shiftR d y pre r)
+    (hk : ∀ a t, ND (k a t) → k' a (shiftSt d y pre t) = shiftR d y pre (k a t)) :
+    ND (r.bind k) → r'.bind k' = shiftR d y pre (r.bind k) :=
+  fun hnd => sh_bind hnd hr (fun a t _ h => hk a t h)
+
+theorem decodeArea_sh (abort : Bool) (tb : MsgTables) (enc : Bool) (t : Ty) (path : Path) (s : St) :
+    ND (decodeArea abort tb enc t path s) →
+    decodeArea abort tb enc t path (shiftSt d y pre s) = shiftR d y pre (decodeArea abort tb enc t path s) := by
+  unfold decodeArea
+  split
+  · split
+    · exact decode_sh abort t path none s
+    · rw [shiftSt_emitM]
+      exact sh_bind' (fields_sh abort _ path [] _) (fun _ _ _ => rfl)
+  · exact decode_sh abort t path none s
+
+theorem sizedLoop_sh (abort : Bool) (t : Ty) (path : Path) (cid : Nat) : ∀ (fuel i : Nat) (acc : List Val) (s : St),
+    ND (sizedLoop abort t path cid fuel i acc s) →
+    sizedLoop abort t path (cid + d) fuel i acc (shiftSt d y pre s) = shiftR d y pre (sizedLoop abort t path cid fuel i acc s) := by
+  intro fuel
+  induction fuel with
+  | zero => intro i acc s _; rfl
+  | succ n ih =>
+    intro i acc s
+    unfold sizedLoop
+    simp only [shiftSt_scs, findSC_sh]
+    cases findSC cid s.scs with
+    | none => intro _; rfl
+    | some c =>
+      simp only [Option.map_some, show (shSC d c).max = c.max from rfl, show (shSC d c).already = c.already from rfl]
+      cases c.max with
+      | none => intro _; rfl
+      | some m =>
+        simp only []
+        split
+        · intro h
+          exact ownCatch_sh abort _ _ _ _ _ h (decode_sh abort t _ none s) (fun v s1 _ h1 => ih _ _ s1 h1)
+        · have hst : (⟨(shiftSt d y pre s).inp, (shiftSt d y pre s).pos, (shiftSt d y pre s).out, removeSC (cid + d) (List.map (shSC d) s.scs)⟩ : St) =
+              shiftSt d y pre ⟨s.inp, s.pos, s.out, removeSC cid s.scs⟩ := by simp [shiftSt, removeSC_sh]
+          rw [hst]
+          exact sh_bind' (assertDoneSC_sh abort c _) (fun _ _ _ => rfl)
+
+theorem sizedFuel_sh (cid : Nat) (scs : List SC) : sizedFuel (cid + d) (scs.map (shSC d)) = sizedFuel cid scs := by
+  unfold sizedFuel
+  rw [findSC_sh]
+  cases findSC cid scs <;> rfl
+
+theorem decodeSized_sh (abort : Bool) (t : Ty) (path : Path) (cid : Nat) (s : St) :
+    ND (decodeSized abort t path cid s) →
+    decodeSized abort t path (cid + d) (shiftSt d y pre s) = shiftR d y pre (decodeSized abort t path cid s) := by
+  unfold decodeSized
+  simp only []
+  rw [shiftSt_emitM]
+  have hf : sizedFuel (cid + d) (shiftSt d y pre (emitM ⟨path, .listOf t.name, none, "", 0⟩ s)).scs =
+      sizedFuel cid (emitM ⟨path, .listOf t.name, none, "", 0⟩ s).scs := sizedFuel_sh cid _
+  rw [hf]
+  exact sizedLoop_sh abort t path cid _ 0 [] _
+
+theorem msgCatch_sh {abort : Bool} {id1 id2 : Nat} {name : String} {vals : List (String × Val)} {r r' : R Val} {k k' : Val → St → R Val}
+    (hr : ND r → r' = shiftR d y pre r) (h : ∀ a t, ND (k a t) → k' a (shiftSt d y pre t) = shiftR d y pre (k a t)) :
+    ND (msgCatch abort id1 id2 name vals r k) →
+    msgCatch abort (id1 + d) (id2 + d) name vals r' k' = shiftR d y pre (msgCatch abort id1 id2 name vals r k) := by
+  intro hnd
+  have hndr : ND r := by
+    intro t hrt
+    rw [hrt] at hnd
+    exact hnd t rfl
+  rw [hr hndr]
+  cases r with
+  | ok vs => obtain ⟨v, t⟩ := vs; simp only [shiftR, msgCatch]; exact h v t hnd
+  | error es =>
+    obtain ⟨e, t⟩ := es
+    cases e with
+    | exceeded cid cp m a v b =>
+      simp only [shiftR, shErr, msgCatch]
+      have e1 : (cid + d != id1 + d) = (cid != id1) := by rw [Bool.eq_iff_iff]; simp
+      have e2 : (cid + d != id2 + d) = (cid != id2) := by rw [Bool.eq_iff_iff]; simp
+      rw [e1, e2]
+      split
+      · rfl
+      · simp only [shiftR]
+        rw [← shiftSt_emitW]; rfl
+    | _ => rfl
+
+theorem initMsg_sh (path : Path) (name : String) (s0 : St) :
+    emitM ⟨path, .named name false, none, "", 0⟩ ⟨(shiftSt d y pre s0).inp, s0.pos + d, (shiftSt d y pre s0).out, [⟨s0.pos + d, [], 0, none⟩]⟩ =
+      shiftSt d y pre (emitM ⟨path, .named name false, none, "", 0⟩ ⟨s0.inp, s0.pos, s0.out, [⟨s0.pos, [], 0, none⟩]⟩) := by
+  simp [emitM, emit, shiftSt, shEv, shSC, List.append_assoc]
+
+macro "sh_step" : tactic => `(tactic| first
+  | (refine msgCatch_sh (readPrim_sh _ _ _ _) (fun _ _ => ?_))
+  | (refine msgCatch_sh (decodeArea_sh _ _ _ _ _ _) (fun _ _ => ?_))
+  | (refine msgCatch_sh (decodeSized_sh _ _ _ _ _) (fun _ _ => ?_))
+  | (refine sh_bind' (fun _ => setListed_sh _ _ _ _ _) (fun _ _ => ?_))
+  | (refine sh_bind' (fun _ => openRegion_sh _ _ _ _ _) (fun _ _ => ?_))
+  | (refine sh_bind' (assertDone_sh _ _ _) (fun _ _ => ?_))
+  | split
+  | (intro _; rfl))
+
+theorem decodeCommand_sh (abort : Bool) (tb : MsgTables) (path : Path) (s0 : St) :
+    ND (decodeCommand abort tb path s0) →
+    decodeCommand abort tb path (shiftSt d y pre s0) = shiftR d y pre (decodeCommand abort tb path s0) := by
+  unfold decodeCommand
+  have e1 : s0.pos + d + 1 = s0.pos + 1 + d := by omega
+  simp only [shiftSt_pos, e1]
+  rw [initMsg_sh]
+  repeat' sh_step
+
+theorem paramsStepT_sh (abort : Bool) (tb : MsgTables) (enc : Bool) (pty : Ty) (p : Path) (pid : Nat) (s : St) :
+    ND ((decodeArea abort tb enc pty p s).bind fun pv s => (assertDone abort pid s).bind fun _ s => (.ok (pv, s) : R Val)) →
+    ((decodeArea abort tb enc pty p (shiftSt d y pre s)).bind fun pv s =>
+        (assertDone abort (pid + d) s).bind fun _ s => (.ok (pv, s) : R Val)) =
+      shiftR d y pre ((decodeArea abort tb enc pty p s).bind fun pv s =>
+        (assertDone abort pid s).bind fun _ s => (.ok (pv, s) : R Val)) :=
+  sh_bind' (decodeArea_sh abort tb enc pty p s) (fun pv t => sh_bind' (assertDone_sh abort pid t) (fun _ _ _ => rfl))
+
+theorem paramsStepF_sh (abort : Bool) (tb : MsgTables) (enc : Bool) (pty : Ty) (p : Path) (s : St) :
+    ND ((decodeArea abort tb enc pty p s).bind fun pv s => (.ok (pv, s) : R Val)) →
+    ((decodeArea abort tb enc pty p (shiftSt d y pre s)).bind fun pv s => (.ok (pv, s) : R Val)) =
+      shiftR d y pre ((decodeArea abort tb enc pty p s).bind fun pv s => (.ok (pv, s) : R Val)) :=
+  sh_bind' (decodeArea_sh abort tb enc pty p s) (fun _ _ _ => rfl)
+
+set_option maxHeartbeats 1000000 in
+theorem decodeResponse_sh (abort : Bool) (tb : MsgTables) (cc : Option Int) (enc : Bool) (path : Path) (s0 : St) :
+    ND (decodeResponse abort tb cc enc path s0) →
+    decodeResponse abort tb cc enc path (shiftSt d y pre s0) = shiftR d y pre (decodeResponse abort tb cc enc path s0) := by
+  unfold decodeResponse
+  have e1 : s0.pos + d + 1 = s0.pos + 1 + d := by omega
+  simp only [shiftSt_pos, e1]
+  rw [initMsg_sh]
+  have finish : ∀ (vals : List (String × Val)) (s : St),
+      ND ((assertDone abort s0.pos s).bind fun _ s =>
+        if s.scs.isEmpty then (.ok (.obj "Response" false vals, s) : R Val)
+        else crash "AssertionError" "size_constraints.assert_done()" s) →
+      ((assertDone abort (s0.pos + d) (shiftSt d y pre s)).bind fun _ s =>
+        if s.scs.isEmpty then (.ok (.obj "Response" false vals, s) : R Val)
+        else crash "AssertionError" "size_constraints.assert_done()" s) =
+      shiftR d y pre ((assertDone abort s0.pos s).bind fun _ s =>
+        if s.scs.isEmpty then (.ok (.obj "Response" false vals, s) : R Val)
+        else crash "AssertionError" "size_constraints.assert_done()" s) := by
+    intro vals s
+    refine sh_bind' (assertDone_sh abort _ s) (fun _ t _ => ?_)
+    simp only [shiftSt_scs, List.isEmpty_map]
+    split <;> rfl
+  refine msgCatch_sh (readPrim_sh _ _ _ _) (fun tag s1 => ?_)
+  refine msgCatch_sh (readPrim_sh _ _ _ _) (fun rsz s2 => ?_)
+  split
+  · intro _; rfl
+  · split
+    · intro _; rfl
+    · refine sh_bind' (fun _ => setListed_sh _ _ _ _ _) (fun _ s3 => ?_)
+      refine msgCatch_sh (readPrim_sh _ _ _ _) (fun rcv s4 => ?_)
+      split
+      · exact finish _ _
+      · split
+        · intro _; split <;> rfl
+        · refine msgCatch_sh (decodeArea_sh _ _ _ _ _ _) (fun hv s5 => ?_)
+          have after : ∀ (vals : List (String × Val)) (s8 : St),
+              ND (if (!(vInt tag == some tb.sessionsTag)) = true then
+                  (assertDone abort s0.pos s8).bind fun _ s =>
+                    if s.scs.isEmpty then (.ok (.obj "Response" false vals, s) : R Val)
+                    else crash "AssertionError" "size_constraints.assert_done()" s
+                else
+                  msgCatch abort s0.pos (s0.pos + 1) "Response" vals
+                    (decodeSized abort tb.authRsp (path ++ [(⟨"authorizationArea", none⟩ : PathNode)]) s0.pos s8) fun area s =>
+                    match areaFlag tb.authRsp "encrypt" area with
+                    | .error cls => crash cls "is_parameter_encryption" s
+                    | .ok expected =>
+                      if expected != enc then crash "AssertionError" "process_response: parameter_encryption mismatch" s else
+                      if s.scs.isEmpty then .ok (.obj "Response" false (vals ++ [("authorizationArea", area)]), s)
+                      else crash "AssertionError" "size_constraints.assert_done()" s) →
+              (if (!(vInt tag == some tb.sessionsTag)) = true then
+                  (assertDone abort (s0.pos + d) (shiftSt d y pre s8)).bind fun _ s =>
+                    if s.scs.isEmpty then (.ok (.obj "Response" false vals, s) : R Val)
+                    else crash "AssertionError" "size_constraints.assert_done()" s
+                else
+                  msgCatch abort (s0.pos + d) (s0.pos + 1 + d) "Response" vals
+                    (decodeSized abort tb.authRsp (path ++ [(⟨"authorizationArea", none⟩ : PathNode)]) (s0.pos + d) (shiftSt d y pre s8)) fun area s =>
+                    match areaFlag tb.authRsp "encrypt" area with
+                    | .error cls => crash cls "is_parameter_encryption" s
+                    | .ok expected =>
+                      if expected != enc then crash "AssertionError" "process_response: parameter_encryption mismatch" s else
+                      if s.scs.isEmpty then .ok (.obj "Response" false (vals ++ [("authorizationArea", area)]), s)
+                      else crash "AssertionError" "size_constraints.assert_done()" s) =
+              shiftR d y pre (if (!(vInt tag == some tb.sessionsTag)) = true then
+                  (assertDone abort s0.pos s8).bind fun _ s =>
+                    if s.scs.isEmpty then (.ok (.obj "Response" false vals, s) : R Val)
+                    else crash "AssertionError" "size_constraints.assert_done()" s
+                else
+                  msgCatch abort s0.pos (s0.pos + 1) "Response" vals
+                    (decodeSized abort tb.authRsp (path ++ [(⟨"authorizationArea", none⟩ : PathNode)]) s0.pos s8) fun area s =>
+                    match areaFlag tb.authRsp "encrypt" area with
+                    | .error cls => crash cls "is_parameter_encryption" s
+                    | .ok expected =>
+                      if expected != enc then crash "AssertionError" "process_response: parameter_encryption mismatch" s else
+                      if s.scs.isEmpty then .ok (.obj "Response" false (vals ++ [("authorizationArea", area)]), s)
+                      else crash "AssertionError" "size_constraints.assert_done()" s) := by
+            intro vals s8
+            split
+            · exact finish _ _
+            · refine msgCatch_sh (decodeSized_sh _ _ _ _ _) (fun area s9 => ?_)
+              split
+              · intro _; rfl
+              · split
+                · intro _; rfl
+                · intro _
+                  simp only [shiftSt_scs, List.isEmpty_map]
+                  split <;> rfl
+          split
+          · refine msgCatch_sh (readPrim_sh _ _ _ _) (fun psz s6 => ?_)
+            split
+            · intro _; rfl
+            · split
+              · intro _; rfl
+              · refine sh_bind' (fun _ => openRegion_sh _ _ _ _ _) (fun _ s7 => ?_)
+                split
+                · intro _; split <;> rfl
+                · refine msgCatch_sh (paramsStepT_sh _ _ _ _ _ _ _) (fun pv s8 => ?_)
+                  exact after _ s8
+          · split
+            · intro _; split <;> rfl
+            · refine msgCatch_sh (paramsStepF_sh _ _ _ _ _ _) (fun pv s8 => ?_)
+              exact after _ s8
+end
